@@ -268,6 +268,19 @@ func compareRef(p *dhcpv4.DHCPv4, r *refPkt) string {
 		if !bytes.Equal(pv, v) {
 			return fmt.Sprintf("option %d value", c)
 		}
+		// the same through the exported readers of the option set: an option that arrived is there (also with an
+		// empty value), and Get hands out what arrived
+		if !p.Options.Has(dhcpv4.GenericOptionCode(c)) {
+			return fmt.Sprintf("option %d present in the datagram but Options.Has says no", c)
+		}
+		if !bytes.Equal(p.Options.Get(dhcpv4.GenericOptionCode(c)), v) {
+			return fmt.Sprintf("option %d value through Options.Get", c)
+		}
+	}
+	for c := 1; c < 255; c++ {
+		if _, there := r.opts[uint8(c)]; !there && p.Options.Has(dhcpv4.GenericOptionCode(uint8(c))) {
+			return fmt.Sprintf("option %d absent from the datagram but Options.Has says yes", c)
+		}
 	}
 	return ""
 }
@@ -830,6 +843,19 @@ func genC07(r *Run) {
 					a = append(a, []byte{codes[i]}, vals[codes[i]])
 				}
 				p := pktOfArgs(a)
+				if (pi+t)%3 == 2 {
+					// the same contents put in through the exported setters, in this insertion order, instead of
+					// directly into the map (an empty value is a value: the option is there)
+					p.Options = dhcpv4.Options{}
+					for k, i := range pm {
+						o := dhcpv4.OptGeneric(dhcpv4.GenericOptionCode(codes[i]), vals[codes[i]])
+						if k%2 == 0 {
+							p.UpdateOption(o)
+						} else {
+							dhcpv4.WithOption(o)(p)
+						}
+					}
+				}
 				// construction programs: also via Update/Del sequences
 				if t%2 == 1 {
 					tmp := byte(77) // a code that is not part of the contents
